@@ -117,11 +117,11 @@ func runC26(c *Ctx) {
 		succ := c.SuccessReturns(fn)
 		c.MP(fn, who+": success only after every storage write succeeded", succ, 1, GOk(t.written))
 		c.MP(fn, who+": success only after the last values were published", succ, 1, GCalled("db.updateLast(*)"))
-		c.MP(fn, who+": success only after the temp's caches were merged", succ, 1, GCalled("db.mergeTempCaches(temp.stcache, temp.instateoperationcache)"))
+		c.MP(fn, who+": success only after the temp's caches were merged", succ, 1, GCalled("db.mergeTempCaches(*)"))
 		c.MP(fn, who+": success only after the state cache dropped the merged block's state keys", succ, 1, GOk("temp.iterStateKeys(*)"))
 		purge := c.CallsD(fn, "temp.iterStateKeys(*)")
 		c.MP(fn, who+": state keys dropped after the temp's cache was merged (a merged stale entry cannot survive)", purge, 1,
-			GCalled("db.mergeTempCaches(temp.stcache, temp.instateoperationcache)"))
+			GCalled("db.mergeTempCaches(*)"))
 		if cl := c.ClosureWithCall(fn, "db.removeStateFromCache(stateKey)"); cl != nil {
 			c.Report(cl, who+": every state key of the merged block is dropped", cl.Pos(), len(c.ReturnsD(cl, 0, "false")) == 0, "")
 		} else {
